@@ -32,6 +32,7 @@ func Skip(dAtA []byte) (n int, err error) {
 	l := len(dAtA)
 	iNdEx := 0
 	depth := 0
+	var groups []uint64 // field numbers of the groups that are open
 	for iNdEx < l {
 		var wire uint64
 		for shift := uint(0); ; shift += 7 {
@@ -86,11 +87,17 @@ func Skip(dAtA []byte) (n int, err error) {
 			}
 			iNdEx += length
 		case 3:
+			groups = append(groups, wire>>3)
 			depth++
 		case 4:
 			if depth == 0 {
 				return 0, ErrUnexpectedEndOfGroup
 			}
+			// an end-group tag closes the innermost open group and must carry its field number
+			if groups[len(groups)-1] != wire>>3 {
+				return 0, ErrUnexpectedEndOfGroup
+			}
+			groups = groups[:len(groups)-1]
 			depth--
 		case 5:
 			iNdEx += 4
